@@ -36,7 +36,7 @@ def piecesRe : List Piece → ParseRes Re
 inductive Step where
   | next            -- this element does not match, go on
   | done (r : R)    -- the scan ends with this result
-  deriving Repr, Inhabited
+  deriving Repr, Inhabited, DecidableEq
 
 def regexElem (stag etag : Char) (e : List Char) (what : PyVal) : Step :=
   if !TagParser.tagged stag etag e then
